@@ -643,7 +643,10 @@ namespace Clipper2Lib {
       }
       if (!prev_v || !prev_v->prev) continue;
       if (!is_open && prev_v->pt == v0->pt)
+      {
         prev_v = prev_v->prev;
+        --cnt; // the closing duplicate isn't part of the path
+      }
       prev_v->next = v0;
       v0->prev = prev_v;
       v = curr_v; // ie get ready for next path
